@@ -544,8 +544,9 @@ def _moves(c: ast.Call) -> bool:
         return False
     if name.startswith("_match"):
         adv = next((kw.value for kw in c.keywords if kw.arg == "advance"), None)
-        if name == "_match" and len(c.args) >= 2:
-            adv = c.args[1]
+        pos_adv = {"_match": 1, "_match_set": 1, "_match_texts": 1, "_match_pair": 2}.get(name)
+        if pos_adv is not None and len(c.args) > pos_adv:
+            adv = c.args[pos_adv]
         if isinstance(adv, ast.Constant) and adv.value is False:
             return False
     return True
